@@ -3,6 +3,7 @@ package main
 
 import (
 	"bufio"
+	"context"
 	"encoding/json"
 	"flag"
 	"fmt"
@@ -193,7 +194,7 @@ func cmdWorker(args []string) int {
 
 // runsIntoCrash replays a trace file in a child process and reports whether the child died with a fatal runtime
 // error inside arche code.
-func runsIntoCrash(self, path string) (bool, string) {
+func runsIntoCrash(self, path string, limit time.Duration) (bool, string) {
 	if self == "" {
 		var err error
 		self, err = os.Executable()
@@ -201,9 +202,14 @@ func runsIntoCrash(self, path string) (bool, string) {
 			return false, ""
 		}
 	}
-	cmd := exec.Command(self, "replay", "-q", "-child", path)
+	ctx, cancel := context.WithTimeout(context.Background(), limit)
+	defer cancel()
+	cmd := exec.CommandContext(ctx, self, "replay", "-q", "-child", path)
 	out, err := cmd.CombinedOutput()
 	text := string(out)
+	if ctx.Err() == context.DeadlineExceeded {
+		return true, fmt.Sprintf("hang: the run did not finish within %v (a run takes milliseconds)", limit)
+	}
 	if err == nil || !strings.Contains(text, "github.com/mlange-42/arche/") {
 		return false, ""
 	}
@@ -231,7 +237,7 @@ func crashReport(bin, prop, build string, rs uint64, thorough bool, outdir strin
 		os.WriteFile(path, b, 0o644)
 	}
 	write(tr)
-	crashed, detail := runsIntoCrash(bin, path)
+	crashed, detail := runsIntoCrash(bin, path, 60*time.Second)
 	if !crashed {
 		os.Remove(path)
 		return nil
@@ -239,6 +245,10 @@ func crashReport(bin, prop, build string, rs uint64, thorough bool, outdir strin
 	// out-of-process ddmin over the steps (bounded)
 	cur := tr
 	budget := 60
+	limit := 60 * time.Second
+	if strings.HasPrefix(detail, "hang") {
+		budget, limit = 24, 6*time.Second
+	}
 	tmp := path + ".cand"
 	tryc := func(steps []sim.Step) bool {
 		if budget <= 0 {
@@ -249,7 +259,7 @@ func crashReport(bin, prop, build string, rs uint64, thorough bool, outdir strin
 		c.Steps = steps
 		b, _ := json.Marshal(&c)
 		os.WriteFile(tmp, b, 0o644)
-		ok, _ := runsIntoCrash(bin, tmp)
+		ok, _ := runsIntoCrash(bin, tmp, limit)
 		return ok
 	}
 	for chunk := len(cur.Steps) / 2; chunk >= 1 && budget > 0; chunk /= 2 {
@@ -266,6 +276,9 @@ func crashReport(bin, prop, build string, rs uint64, thorough bool, outdir strin
 	}
 	os.Remove(tmp)
 	cur.Violation.Msg = detail
+	if strings.HasPrefix(detail, "hang") {
+		cur.Violation.Class = "hang"
+	}
 	write(cur)
 	return &workerMsg{T: "viol", Seed: rs, Class: "crash", Props: []string{prop}, Msg: detail, Replay: path, Facts: []string{"class:crash"}}
 }
@@ -313,9 +326,9 @@ func cmdReplay(args []string) int {
 		return sim.ReplaySpecial(&tr, *quiet)
 	}
 	want := tr.Violation
-	if want != nil && want.Class == "crash" && !*child {
+	if want != nil && (want.Class == "crash" || want.Class == "hang") && !*child {
 		// the recorded failure kills the process (fatal runtime error in unsafe code): run it in a child
-		crashed, detail := runsIntoCrash("", fs.Arg(0))
+		crashed, detail := runsIntoCrash("", fs.Arg(0), 60*time.Second)
 		if crashed {
 			fmt.Printf("replay: the process died: %s\n", detail)
 			fmt.Printf("VIOLATION property=%s replay=%s\n", tr.Property, fs.Arg(0))
@@ -458,6 +471,15 @@ func cmdRun(args []string) int {
 			}
 			cmd := exec.Command(bin, wargs...)
 			cmd.Env = append(os.Environ(), "GOMEMLIMIT=1500MiB", "GOMAXPROCS=2")
+			// watchdog: a worker checks the deadline between runs only, so a run that never ends would block the check
+			hung := false
+			watchdog := time.AfterFunc(time.Duration(*budget+120)*time.Second, func() {
+				hung = true
+				if cmd.Process != nil {
+					cmd.Process.Kill()
+				}
+			})
+			defer watchdog.Stop()
 			stdout, _ := cmd.StdoutPipe()
 			var stderr strings.Builder
 			cmd.Stderr = &stderr
@@ -535,8 +557,11 @@ func cmdRun(args []string) int {
 				}
 				a.Unlock()
 				var rep *workerMsg
-				if ls.Seed != 0 && strings.Contains(stderr.String(), "github.com/mlange-42/arche/") {
+				if ls.Seed != 0 && (hung || strings.Contains(stderr.String(), "github.com/mlange-42/arche/")) {
 					rep = crashReport(bin, *prop, build, ls.Seed, thorough, *outdir)
+					if rep != nil && hung {
+						rep.Class = "hang"
+					}
 				}
 				a.Lock()
 				if rep != nil {
